@@ -1,9 +1,13 @@
 use crate::engine::Prop;
 
 pub mod c01;
+pub mod c02;
+pub mod c03;
+pub mod c04;
+pub mod c05;
 
 pub fn all() -> Vec<Prop> {
-    vec![c01::prop()]
+    vec![c01::prop(), c02::prop(), c03::prop(), c04::prop(), c05::prop()]
 }
 
 pub fn find(id: &str) -> Option<Prop> {
